@@ -106,7 +106,7 @@ def run_c06(tier, args):
     nviol = 0
     herr = False
     per = {"quick": {"unchecked": 12000, "checked": 4000, "unchecked_O0": 4000}, "thorough": {"unchecked": 400000, "checked": 100000, "unchecked_O0": 100000, "unchecked_clang20": 100000}}[tier]
-    nreg, regbad = run_regressions("C06", lambda t: bins["checked" if "\nbuild checked" in t else "unchecked"])
+    nreg, regbad = run_regressions("C06", lambda t: bins["checked" if "\nbuild checked" in t else "unchecked"], extra=extra)
     nviol += regbad
     for fl in flavours:
         b = run_batch(bins[fl], "C06", tier, first, per[fl], out, extra=extra)
@@ -151,7 +151,7 @@ def run_c10(tier, args):
     first = first_run_seed()
     nviol = 0
     herr = False
-    nreg, regbad = run_regressions("C10", lambda t: os.path.join(eng_dynarr.build(), "dynarr_checked") if "\nengine dynarr" in t else bins["checked"])
+    nreg, regbad = run_regressions("C10", lambda t: os.path.join(eng_dynarr.build(), "dynarr_checked") if "\nengine dynarr" in t else bins["checked"], extra=extra)
     nviol += regbad
     total = Batch()
     runs = [("checked", 1500 if tier == "quick" else 60000)]
@@ -204,7 +204,7 @@ def _run_simple(prop, tier, counts, level, rule, extra_cov, assumptions, eval_co
     out = scratch_dir(prop)
     extra, known = known_arg(prop)
     first = first_run_seed()
-    nreg, regbad = run_regressions(prop, lambda t: bins["checked" if "\nbuild checked" in t else "unchecked"])
+    nreg, regbad = run_regressions(prop, lambda t: bins["checked" if "\nbuild checked" in t else "unchecked"], extra=extra)
     nviol = regbad
     herr = False
     total = Batch()
@@ -273,7 +273,8 @@ def replay(prop, path):
         return eng_dynarr.replay(prop, path)
     fl = "checked" if "\nbuild checked" in plan else "unchecked"
     bins, d = build("quick", tier_flavours("quick"))
-    viol, sig, fp, outp = exec_plan(bins[fl], path)
+    extra, _ = known_arg(prop)
+    viol, sig, fp, outp = exec_plan(bins[fl], path, extra=extra)
     log(outp.strip()[-3000:])
     if viol:
         log("VIOLATION property=%s replay=%s" % (prop, path))
